@@ -1,7 +1,8 @@
 (* Extraction of the C13 models for the correspondence check.  ExtrOcamlBasic only: bool, option,
    list, prod, unit, sum map to OCaml's; nat stays the extracted inductive. *)
 From Coq Require Import Extraction ExtrOcamlBasic.
-From PV Require Import Bind.Model Bind.PytdModel Bind.SplatModel.
+From PV Require Import Bind.Model Bind.PytdModel Bind.SplatModel Bind.FormsModel.
 Extraction Language OCaml.
 Extraction "bind_model.ml" bind_py bind_py_fixed bind_c bind_pytd lookup_all all_names wf_sigb nodupb
-  site_items bind_px_gen call_at_depth frames_at_call.
+  site_items bind_px_gen call_at_depth frames_at_call
+  call_form_py call_form_c argcount_src argcount_pytd ctor_py ctor_c call_overloaded.
